@@ -82,6 +82,10 @@ class Report:
         self.obligations += 1
         self.instances[rule] = self.instances.get(rule, 0) + 1
         self.nontrivial.add((rule, function, construct))
+        for v in self.violations:
+            if v.key() == (rule, function, construct):
+                v.extra["more_instances"] = v.extra.get("more_instances", 0) + 1
+                return
         self.violations.append(Violation(rule, function, construct, message, extra, line))
 
     def check(self, cond, rule, function, construct, message, detail=None, extra=None, line=None):
@@ -175,9 +179,12 @@ def finish(prop, tier, rep, t0, explanation, not_decided, engines):
         replay = os.path.join(ev_dir, f"{prop}.violations.json")
         with open(replay, "w") as f:
             json.dump([v.as_dict() for v in unexpected], f, indent=1, default=str)
-        for v in unexpected:
+        for v in unexpected[:12]:
             loc = f"{REPO_FILE}:{v.line}" if v.line else REPO_FILE
-            print(f"  violation rule={v.rule} at {loc} in {v.function}: {v.message}  [construct: {v.construct}]")
+            msg = f"  violation rule={v.rule} at {loc} in {v.function} [{v.construct}]: {v.message}"
+            print(msg if len(msg) < 420 else msg[:417] + "...")
+        if len(unexpected) > 12:
+            print(f"  ... and {len(unexpected) - 12} more (see replay file)")
         print(f"VIOLATION property={prop} replay={replay}")
         return 1
     print(f"OK property={prop} tier={tier} obligations={rep.obligations} discharged={rep.discharged} "
